@@ -415,7 +415,7 @@ fn random_fees(rng: &mut Rng) -> Fees {
     let small = |rng: &mut Rng| *rng.pick(&[0u128, 1, 7, 100, 5_000]);
     let mut f = Fees {
         get_utxos_base: small(rng),
-        get_utxos_cycles_per_ten_instructions: *rng.pick(&[0u128, 1, 3, 10]),
+        get_utxos_cycles_per_ten_instructions: *rng.pick(&[0u128, 1, 3, 7, 10, 10]),
         get_utxos_maximum: small(rng) + *rng.pick(&[0u128, 50, 10_000]),
         get_balance: small(rng),
         get_balance_maximum: 0,
@@ -424,7 +424,7 @@ fn random_fees(rng: &mut Rng) -> Fees {
         send_transaction_base: small(rng),
         send_transaction_per_byte: *rng.pick(&[0u128, 1, 20]),
         get_block_headers_base: small(rng),
-        get_block_headers_cycles_per_ten_instructions: *rng.pick(&[0u128, 1, 3, 10]),
+        get_block_headers_cycles_per_ten_instructions: *rng.pick(&[0u128, 1, 3, 7, 10, 10]),
         get_block_headers_maximum: small(rng) + *rng.pick(&[0u128, 50, 10_000]),
     };
     // base <= maximum (with base > maximum `maximum - base` underflows: a panic in this native
@@ -457,7 +457,8 @@ fn endpoint_call(out: &mut Out, rng: &mut Rng, st: &Sync) {
         2 => maximum + rng.range(0, 100_000) as u128,
         _ => u128::MAX / 4,
     };
-    let instructions = *rng.pick(&[0u64, 9, 10, 11, 1_000, 99_999, 5_000_000]);
+    // instruction counts: boundary values, or any small count (most are not multiples of ten)
+    let instructions = if rng.chance(1, 2) { rng.range(1, 2_000) } else { *rng.pick(&[0u64, 9, 10, 11, 1_000, 99_999, 5_000_000]) };
     let addrs = st.case.world.addresses();
     let (addr_text, addr_tok) = if rng.chance(1, 6) { ("garbage".to_string(), "bad".to_string()) } else { let a = rng.pick(&addrs).clone(); (a.clone(), format!("a:{}", a)) };
     let tipc = can::with_state(|s| can::unstable_blocks::get_main_chain_length(&s.unstable_blocks)) as u32;
